@@ -79,6 +79,42 @@ def model_check(module, cfg_text, workers=NCPU, timeout=3600, extra=(), coverage
         shutil.rmtree(wd, ignore_errors=True)
 
 
+def simulate(module, cfg_text, seconds, depth=80, workers=NCPU, tag="sim", seed=0):
+    """Random behaviours of an instance too large to exhaust (tlc -simulate) for `seconds`.
+    Returns {"ok", "errors", "behaviour", "traces", "states", "wall_s"}; TLC stops by itself only
+    when it finds a violation."""
+    wd = workdir(tag)
+    try:
+        cfg = os.path.join(wd, "model.cfg")
+        with open(cfg, "w") as f:
+            f.write(cfg_text)
+        cmd = java_tlc(heap="8g", gc="Parallel") + ["-simulate", "num=2000000000", "-depth", str(depth), "-seed", str(seed), "-workers", str(workers), "-metadir", os.path.join(wd, "meta"), "-noGenerateSpecTE", "-config", cfg, module + ".tla"]
+        t0 = time.time()
+        p = subprocess.Popen(cmd, cwd=SPEC, stdout=subprocess.PIPE, stderr=subprocess.STDOUT, text=True)
+        try:
+            out, _ = p.communicate(timeout=seconds)
+            finished = True
+        except subprocess.TimeoutExpired:
+            p.kill()
+            out, _ = p.communicate()
+            finished = False
+        res = tlcout.parse(out)
+        res["raw"] = out
+        res["wall_s"] = time.time() - t0
+        m = re.findall(r"Progress: (\d+) states checked, (\d+) traces generated", out)
+        res["sim_states"], res["sim_traces"] = (int(m[-1][0]), int(m[-1][1])) if m else (0, 0)
+        if finished and not res["errors"] and "Error" not in out:
+            raise MachineryError("tlc -simulate ended by itself without a verdict:\n" + out[-2000:])
+        if not finished:
+            if "Error:" in out:
+                raise MachineryError("tlc -simulate reported an error:\n" + out[-2000:])
+            res["ok"] = True
+            res["errors"] = []
+        return res
+    finally:
+        shutil.rmtree(wd, ignore_errors=True)
+
+
 _VERDICT = re.compile(r'<<"TRACE", (\d+), (\d+), "(ACCEPT|REJECT)", (\d+)>>')
 
 
